@@ -632,10 +632,22 @@ async def load_scripts(
         for global_ctx_name, src_info in ctx2files.items():
             if global_ctx_name in ctx_all:
                 ctx = ctx_all[global_ctx_name]
+                #
+                # apps/APP/__init__.py is still found (by the non-autoload apps/*/**/*.py glob, with
+                # app_config None) after APP's configuration entry was removed: a loaded app whose
+                # main file is no longer autoloaded has lost its configuration and must be unloaded,
+                # even if its configuration was the empty entry "APP:" (None == None below)
+                #
+                app_unconfigured = (
+                    global_ctx_name.startswith("apps.")
+                    and global_ctx_name.count(".") == 1
+                    and not src_info.autoload
+                )
                 if (
                     src_info.source != ctx.get_source()
                     or src_info.app_config != ctx.get_app_config()
                     or src_info.mtime != ctx.get_mtime()
+                    or app_unconfigured
                 ):
                     ctx_delete.add(global_ctx_name)
                     src_info.force = True
